@@ -57,7 +57,9 @@ class InternalCompiler(Compiler):
             # 2.1 Compile the expression
             iret = self.compile_expr(qc, symp_exp, sym=sym)
 
-            # 2.2 Map iret qubit to the symbol
+            # 2.2 Map iret qubit to the symbol; from now on sym denotes the new value: forget
+            # the qubits of the expressions that were computed from the old one
+            self.expqmap.remove_symbol(sym)
             self.expqmap[sym] = iret
             qc.map_qubit(sym, iret, promote=not is_temp)
 
